@@ -234,4 +234,10 @@ package eval
 //@   witness idx#12 "x = [Object.new,Object.new,Object.new,Object.new,Object.new,Object.new,Object.new,Object.new,Object.new,Object.new,Object.new,Object.new,Object.new,Object.new,Object.new,Object.new,Object.new,Object.new,Object.new,Object.new,Object.new,Object.new]\nx.each do |a, b|\n  dbtp a\nend\n"
 //@ func (*ti/eval.Do).setBlockParameters
 //@   safe idx,slice
-//@   inline 2 1
+//@   inline 16 2
+//@   # the i-th block variable is bound to the i-th declared block parameter; a variable beyond the
+//@   # declared parameters is nil; each under its own name, in the frame/class/method of the block
+//@   callsite[C17] SetValueT a_variable == variable.ToString()
+//@   callsite[C17] SetValueT a_frame == ctx.frame && a_class == ctx.class && a_method == ctx.method
+//@   callsite[C17] SetValueT len(blockParameters) <= idx ==> a_t.tType == base.NIL
+//@   callsite[C17] SetValueT len(blockParameters) > idx ==> a_t.tType == blockParameters[idx].tType
